@@ -94,3 +94,19 @@ Theorem C01_leaf_unbound_cased_refuted : exists sv txt,
   exists a, atom_decode (W_of []) txt = Some a /\ acceptb false [c_us] (LStr true sv) a = false.
 Proof. exact unbound_cased_refuted. Qed.
 Print Assumptions C01_leaf_unbound_cased_refuted.
+
+(* ---- whole queries: splitting the text into operators, parentheses and atom texts ---- *)
+From PS Require Import Spec.Lex Proofs.LexP.
+(* Lexing the rendered token sequence by the target language's rules gives the token sequence back, for
+   atom texts of the checkable shape (delimited up to the first unescaped closing delimiter, or a
+   quoted field name plus word, or a word that is not an operator) ... *)
+Theorem C01_lex_show : forall atxt ftxt vtxt ts,
+  (forall t, In t ts -> is_atom t = true -> shapeb (stxt atxt ftxt vtxt t) = true) -> sep_ok ts = true ->
+  lex (show vb_syntax atxt ftxt vtxt ts) = Some (map (ltok_of atxt ftxt vtxt) ts).
+Proof. exact lex_show. Qed.
+Print Assumptions C01_lex_show.
+(* ... and every token sequence the conversion produces separates its atoms, for every configuration
+   and every condition tree *)
+Theorem C01_conv_separates : forall K c un, sep_ok (conv K un c) = true.
+Proof. intros K c un. exact (conv_sep_ok K c un). Qed.
+Print Assumptions C01_conv_separates.
